@@ -276,7 +276,9 @@ Proof. repeat constructor. Qed.
 Lemma ex_fits : Forall (fits load_buf_size) (ex_lib :: ex_log).
 Proof.
   apply fits_names; [exact ex_wf|].
-  repeat constructor; unfold load_buf_size; cbn [length e_out ex_a1 ex_gen ex_a2 ex_lib]; lia.
+  unfold load_buf_size.
+  repeat (apply Forall_cons || apply Forall_nil);
+    cbn [length e_out ex_a1 ex_gen ex_a2 ex_lib]; lia.
 Qed.
 
 Example C08_roundtrip_nonvacuous :
@@ -287,11 +289,11 @@ Proof.
   vm_compute. reflexivity.
 Qed.
 
-(* torn in the middle of the third record (byte 100 of 123): the first two records survive *)
+(* torn in the middle of the third record (byte 120 of 153): the first two records survive *)
 Example C08_torn_nonvacuous :
-  length ex_file = 123%nat /\
-  load_log (firstn 100 ex_file) = LOk [ex_a1; ex_gen] false /\
-  complete_prefix 100 ex_log = [ex_a1; ex_gen] /\
+  length ex_file = 153%nat /\
+  load_log (firstn 120 ex_file) = LOk [ex_a1; ex_gen] false /\
+  complete_prefix 120 ex_log = [ex_a1; ex_gen] /\
   load_log (firstn 7 ex_file) = LDiscard true true /\
   load_log (firstn 14 ex_file) = LOk [] false /\
   load_log (firstn 0 ex_file) = LOk [] false.
@@ -301,23 +303,23 @@ Proof. repeat split; vm_compute; reflexivity. Qed.
    one line whose third field is glued: an entry named "9" with hash 0x1700000000423456789
    clamped to ULLONG_MAX ... whatever it is, the model says exactly which: *)
 Example C08_append_after_tear_nonvacuous :
-  (length log_header <= 100)%nat /\
-  (length (torn_fragment 100 ex_log) + length (render_entry ex_lib) <= load_buf_size)%nat /\
-  load_log (record_append (firstn 100 ex_file) [ex_lib]) =
-  LOk (last_wins ([ex_a1; ex_gen] ++ merged_line_entry (torn_fragment 100 ex_log) ex_lib)) false /\
-  merged_line_entry (torn_fragment 100 ex_log) ex_lib =
+  (length log_header <= 120)%nat /\
+  (length (torn_fragment 120 ex_log) + length (render_entry ex_lib) <= load_buf_size)%nat /\
+  load_log (record_append (firstn 120 ex_file) [ex_lib]) =
+  LOk (last_wins ([ex_a1; ex_gen] ++ merged_line_entry (torn_fragment 120 ex_log) ex_lib)) false /\
+  merged_line_entry (torn_fragment 120 ex_log) ex_lib =
   [ {| e_out := [57]; e_start := 260; e_end := 300; e_mtime := 170000000037;
        e_hash := 18446744073709551615 |} ].
 Proof.
   split; [vm_compute; lia|].
-  split; [replace (length (torn_fragment 100 ex_log) + length (render_entry ex_lib))%nat
-            with 62%nat by (vm_compute; reflexivity); unfold load_buf_size; lia|].
+  split; [replace (length (torn_fragment 120 ex_log) + length (render_entry ex_lib))%nat
+            with 68%nat by (vm_compute; reflexivity); unfold load_buf_size; lia|].
   split; vm_compute; reflexivity.
 Qed.
 
 (* the side condition of the safe-direction theorem is satisfiable: here nothing named "9" is live *)
 Example C08_safe_direction_partial_nonvacuous :
-  forall g, In g (merged_line_entry (torn_fragment 100 ex_log) ex_lib) ->
+  forall g, In g (merged_line_entry (torn_fragment 120 ex_log) ex_lib) ->
     g = ex_lib \/
     (fun (out : bytes) (_ : N) => negb (bytes_eqb out [57])) (e_out g) (e_hash g) = false.
 Proof.
